@@ -100,14 +100,19 @@ def excluded(path, root, excl, base_flags):
     return any(G.globmatch(p, e, flags=base_flags | G.DOTGLOB) for e in excl)
 
 
-def check_list(ctx, tr, rng, k, j):
-    pats, singles, excl, need = build_list(rng, tr)
+def check_list(ctx, tr, rng, k, j, forced=None):
+    if forced:
+        pats, singles, excl, fn, inline = forced
+        pats, singles, excl, fn, need = list(pats), list(singles), list(excl), list(fn), set()
+    else:
+        pats, singles, excl, need = build_list(rng, tr)
     has_abs = '_ABS' in need
     need.discard('_ABS')
-    fn = ['EXTGLOB'] + sorted(need) + [f for f in OPT if rng.random() < 0.28]
-    if 'CASE' in fn and 'IGNORECASE' in fn and rng.random() < 0.5:
-        fn.remove('CASE')
-    inline = bool(excl) and rng.random() < 0.5
+    if not forced:
+        fn = ['EXTGLOB'] + sorted(need) + [f for f in OPT if rng.random() < 0.28]
+        if 'CASE' in fn and 'IGNORECASE' in fn and rng.random() < 0.5:
+            fn.remove('CASE')
+        inline = bool(excl) and rng.random() < 0.5
     kw = {}
     api_pats = list(pats)
     if excl:
@@ -206,8 +211,47 @@ def check_list(ctx, tr, rng, k, j):
         ctx.sample({'tree': tr.spec, 'patterns': api_pats, 'kw': kw, 'flags': fn, 'result': res[:8], 'per_pattern': [x[:5] for x in per]})
 
 
+# patterns that are the same text up to letter case and still denote different sets, whatever the case rule: a list keeps both
+CASE_TREE = [('_a', 'f', None), ('a', 'f', None), ('B', 'f', None), ('^x', 'f', None), ('1', 'f', None), ('Zz', 'f', None),
+             ('d', 'd', None), ('d/_q', 'f', None), ('d/q', 'f', None), ('d/Q1', 'f', None)]
+CASE_PAIRS = [('[a-z]*', '[A-z]*'), ('[!a-z]*', '[!A-z]*'), ('[[:alpha:]]*', '[[:ALPHA:]]*'), ('d/[a-z]*', 'd/[A-z]*'), ('*/[a-z]*', '*/[A-z]*'),
+              ('[[:upper:]]*', '[[:UPPER:]]*'), ('[a-z]', '[A-z]'), ('**/[a-z]*', '**/[A-z]*'), ('@([a-z]*)', '@([A-z]*)'), ('[a-z]*', '[A-Z]*')]
+
+
+def case_pair_scenarios(ctx):
+    idx = 0
+    todo = []
+    for a, b in CASE_PAIRS:
+        for x, y in ((a, b), (b, a)):
+            for fn in (('IGNORECASE',), ('IGNORECASE', 'NOUNIQUE'), (), ('IGNORECASE', 'GLOBSTAR', 'MARK'), ('CASE', 'IGNORECASE')):
+                for form in ('list', 'brace', 'split', 'exclude=', 'inline'):
+                    idx += 1
+                    if ctx.mine(idx):
+                        todo.append((x, y, fn, form))
+    if not todo:
+        return
+    import random
+    with T.Tree(CASE_TREE, 'c13c-') as tr:
+        for x, y, fn, form in todo:
+            fn = ['EXTGLOB', 'GLOBSTAR'] + [f for f in fn if f != 'GLOBSTAR']
+            if form == 'list':
+                forced = ([x, y], [x, y], [], fn, False)
+            elif form == 'brace':
+                forced = (['{' + x + ',' + y + '}'], [x, y], [], fn + ['BRACE'], False)
+            elif form == 'split':
+                forced = ([x + '|' + y], [x, y], [], fn + ['SPLIT'], False)
+            elif form == 'exclude=':
+                forced = (['**'], ['**'], [x, y], fn, False)
+            else:
+                forced = (['**'], ['**'], [x, y], fn, True)
+            with ctx.case(timeout=20, label=('case-pair', x, y, tuple(fn), form)):
+                check_list(ctx, tr, random.Random(idx), 0, 1, forced=forced)
+                ctx.count('case_pair_scenarios')
+
+
 def run(ctx):
     quick = ctx.quick
+    case_pair_scenarios(ctx)
     k = 0
     limit = 150 if quick else 10 ** 9
     while k < limit and not ctx.out_of_time():
